@@ -8,6 +8,17 @@ import c04
 
 def make_case(rng):
     c = c04.make_case(rng, flags={"links": True})
+    if rng.random() < 0.35:
+        # the same call text more than once on the page (identical texts share internal bookkeeping; every occurrence is a
+        # call of its own for the hooks)
+        calls = [it for it in c["page_ast"] if not isinstance(it, int) and it[0] == "T"]
+        if calls:
+            dup = rng.choice(calls)
+            extra = []
+            for _ in range(rng.randint(1, 2)):
+                extra += G.txt(rng.choice([" ", " and ", "\n", "x"])) + [dup]
+            c["page_ast"] = list(c["page_ast"]) + extra
+            c["page"] = G.render(c["page_ast"])
     names = [t[0] for t in c["lib_ast"]]
     call_names = G.NAMES[:len(names)]
     for t, tt in zip(c["lib_ast"], c["lib"]):
